@@ -5,14 +5,28 @@
    peer (StrayIdSeq, PeerCallIdSeq: typed ids) are printed with every behaviour: a "stray" / "pcall" label
    names its id by index, and the harness puts exactly that id, with that JSON type, on the wire.        *)
 EXTENDS JsonRpc
-VARIABLES hist, cbudget, sbudget
-\* Cancel is enabled almost everywhere, so a uniform random walk would cancel every call early; each
-\* behaviour draws the number of cancellations (0..NC) and stray responses (0..MaxStray) it may use with its
-\* initial state.
-SimInit == Init /\ hist = <<>> /\ cbudget \in 0..NC /\ sbudget \in 0..MaxStray
-SimNext == \E l \in Labels : /\ Do(l)
+VARIABLES hist, cplan, sbudget
+\* Cancel is enabled almost everywhere, so a uniform random walk would cancel every call early and never in
+\* the windows that matter.  Each behaviour draws, with its initial state, a cancellation plan per caller
+\* (weighted by repetition) and the number of stray responses (0..MaxStray) it may use:
+\*   never   the call is not cancelled
+\*   any     cancelled at an arbitrary point (in a random walk: early -- before or during the write)
+\*   wait    cancelled while the call waits for its response
+\*   lookup  cancelled exactly between the run loop's lookup (id found in pending) and its send on the reply
+\*           channel -- the window the channel's buffer exists for; when it opens, the cancellation is the next step
+PlanSeq == <<"never", "never", "never", "any", "any", "wait", "lookup", "lookup">>
+Plan(c) == PlanSeq[cplan[c]]
+SimInit == Init /\ hist = <<>> /\ cplan \in [Callers -> 1..Len(PlanSeq)] /\ sbudget \in 0..MaxStray
+CancelOK(c) == CASE Plan(c) = "any"    -> TRUE
+                 [] Plan(c) = "wait"   -> pc[c] = "wait"
+                 [] Plan(c) = "lookup" -> rd.pc = "send" /\ rd.to = c
+                 [] OTHER              -> FALSE
+Forced == {c \in Callers : Plan(c) = "lookup" /\ rd.pc = "send" /\ rd.to = c /\ ~cancelled[c] /\ pc[c] # "done"}
+SimNext == \E l \in Labels : /\ (Forced # {} => (l.a = "cancel" /\ l.w \in Forced))
+                             /\ (l.a = "cancel" => CancelOK(l.w))
+                             /\ Do(l)
                              /\ hist' = Append(hist, l)
-                             /\ IF l.a = "cancel" THEN cbudget > 0 /\ cbudget' = cbudget - 1 ELSE cbudget' = cbudget
+                             /\ cplan' = cplan
                              /\ IF l.a = "stray" THEN sbudget > 0 /\ sbudget' = sbudget - 1 ELSE sbudget' = sbudget
 \* nothing is in progress: every call has returned or waits for a response the peer has not sent
 Settled == /\ \A c \in Callers : pc[c] = "done" \/ (pc[c] = "wait" /\ c \notin replied /\ ~cancelled[c])
